@@ -252,14 +252,14 @@ def run(ctx):
     # ---- (b)+(c) jobs -----------------------------------------------------------
     rng = ctx.rng
     nets = []
-    for k in range(ctx.n(4, 8)):
+    for k in range(ctx.n(4, 14)):
         net, feats = rand_net(rng, rng.choice([8, 9, 10, 12]) if k else 12)
         nets.append((net, feats))
     simple_nets = []
     for k in range(ctx.n(2, 4)):
         net, feats = rand_net(rng, rng.choice([7, 8, 9]), simple=True)
         simple_nets.append((net, feats | {"simple_net"}))
-    seeds = [rng.randrange(1, 2 ** 31) for _ in range(ctx.n(3, 5))] + [0]
+    seeds = [rng.randrange(1, 2 ** 31) for _ in range(ctx.n(3, 7))] + [0]
     jobs = []
 
     def netof(ni):
